@@ -1,6 +1,7 @@
 package checks
 
 import (
+	"go/constant"
 	"go/token"
 	"fmt"
 	"go/types"
@@ -323,17 +324,9 @@ func schemeLiterals(p *core.Program, pred, match *ssa.Function) ([]string, ssa.V
 			if !ok || call.Call.StaticCallee() != match || len(call.Call.Args) < 2 {
 				continue
 			}
-			ld, ok := call.Call.Args[0].(*ssa.UnOp)
-			if !ok {
+			bs, path, ok := ssax.TableRead(call.Call.Args[0])
+			if !ok || len(path) != 1 || path[0].Field {
 				return nil, nil, "the matcher's first argument is not an element of a list: undecided"
-			}
-			ia, ok := ld.X.(*ssa.IndexAddr)
-			if !ok {
-				return nil, nil, "the matcher's first argument is not an element of a list: undecided"
-			}
-			bs := arrayBase(ia.X)
-			if bs == nil {
-				return nil, nil, "the scheme list is not a local literal: undecided"
 			}
 			if base != nil && base != bs {
 				return nil, nil, "several scheme lists: undecided"
@@ -424,15 +417,14 @@ func arrayBase(v ssa.Value) ssa.Value {
 
 // indexOfLoad returns the index value of a load *(&base[idx]).
 func indexOfLoad(v ssa.Value, base ssa.Value) (ssa.Value, bool) {
-	ld, ok := v.(*ssa.UnOp)
-	if !ok {
+	root, path, ok := ssax.TableRead(v)
+	if !ok || root != base || len(path) != 1 || path[0].Field {
 		return nil, false
 	}
-	ia, ok := ld.X.(*ssa.IndexAddr)
-	if !ok || arrayBase(ia.X) != base {
-		return nil, false
+	if path[0].Var != nil {
+		return path[0].Var, true
 	}
-	return ia.Index, true
+	return ssa.NewConst(constant.MakeInt64(int64(path[0].K)), types.Typ[types.Int]), true
 }
 
 // gateRule: a true result of callee makes fn return true — at every call site
